@@ -7,9 +7,10 @@ def run(tier, runner):
     pts = matrix.swap2_points(tier) + [p for p in matrix.vec_points(tier)]
     progs = matrix.programs(runner, pts)
     sw = [p for p in progs if 'specs' in p.meta]
-    r_w = encoding.enc_w(progs)
+    real = matrix.real_programs(runner, tier)
+    r_w = encoding.enc_w(progs + real)
     r_tf = ownership.throw_first(sw)
-    r_tr = callgraph.throw_reach(sw)
+    r_tr = callgraph.throw_reach(sw + real)
     r_cd = lifetime.check_dom(sw)
     r_st = ownership.steal([p for p in progs if 'flavour' in p.meta])
     r_w.require(18, 'stores to the size words')
